@@ -8,8 +8,8 @@ import time
 
 import z3
 
-Z3_TIMEOUT_MS = int(os.environ.get('PYVC_Z3_MS', '8000'))
-CVC5_TIMEOUT_MS = int(os.environ.get('PYVC_CVC5_MS', '15000'))
+Z3_TIMEOUT_MS = int(os.environ.get('PYVC_Z3_MS', '10000'))
+CVC5_TIMEOUT_MS = int(os.environ.get('PYVC_CVC5_MS', '20000'))
 CVC5 = '/usr/bin/cvc5'
 
 
@@ -156,7 +156,7 @@ def discharge(ob, tier='quick'):
                 ob.model = None
         ob.time = time.time() - t0
         return ob
-    quickto = max(1000, full // 6)
+    quickto = max(1000, full // 3)
     subsets = relevant_subsets(ob.pc, ob.goal) if len(ob.pc) > 40 else []
     # a short attempt on the whole path condition first (most obligations need well under a second), then the
     # relevance-filtered hypothesis sets, then the whole path condition again with the full budget
